@@ -4,6 +4,12 @@ import "verif/checker/internal/core"
 
 func init() {
 	register(&Prop{
+		ID:      "C11",
+		Rules:   []*Rule{rCodec},
+		Explain: "interim",
+		Trusted: []string{"go/ssa"},
+	})
+	register(&Prop{
 		ID:    "C07",
 		Rules: []*Rule{rHide, rHideKeep, rBarrierCtor, rWrapDual},
 		Explain: "Decides, for all compositions and after decoding (decoders rebuild the same types; opaque fallbacks keep the payload inside an Any), that the error stored behind a barrier or as a secondary error cannot reach any Return, call, comparison or store other than printing, encoding and the safe-details walk (so no Unwrap/Cause/Is/As/accessor can see it); that it stays printed in %+v and folded into SafeDetails(); that every constructor which hides a parameter never also exposes it; and that Cause()/Unwrap() of every wrapper return the same, visible, field. " +
